@@ -33,6 +33,9 @@ func (tr *Tr) curA(fr *frame) string { return tr.C.hget(fr.heap, tr.C.allocKey()
 
 // allocate a fresh reference
 func (tr *Tr) alloc(fr *frame, hint string) string {
+	if tr.pure > 0 {
+		vfail("a Go function called from a specification allocates; it is not pure")
+	}
 	a := tr.curA(fr)
 	ref := tr.define("Int", a, hint)
 	if ref == a { // keep a stable name for the reference even if the counter term is short
@@ -293,6 +296,10 @@ func (tr *Tr) instr(fr *frame, ins ssa.Instruction) {
 		tr.vc.Abstract["range-over-map/string"]++
 		fr.vals[x] = Val{Tuple: vs, Ty: x.Type()}
 	case *ssa.Call:
+		if res, ok := tr.afterCall(fr, x); ok {
+			fr.vals[x] = res
+			return
+		}
 		fr.pendingClosure = nil
 		res := tr.call(fr, x, &x.Call, x.Pos())
 		fr.vals[x] = res
@@ -931,6 +938,17 @@ func (tr *Tr) assignTargets(fr *frame, c *Contract, env *specEnv) map[string]*as
 				t := get(k)
 				t.refs = append(t.refs, v.T)
 			}
+		case strings.HasPrefix(a, "released(") && strings.HasSuffix(a, ")"):
+			s, err := parseSpec(a[9 : len(a)-1])
+			if err != nil {
+				vfail("assigns %s: %v", a, err)
+			}
+			v, err := env.evalVal(s)
+			if err != nil {
+				vfail("assigns %s: %v", a, err)
+			}
+			t := get(tr.C.relKey())
+			t.refs = append(t.refs, v.T)
 		case strings.HasPrefix(a, "held(") && strings.HasSuffix(a, ")"):
 			s, err := parseSpec(a[5 : len(a)-1])
 			if err != nil {
